@@ -210,6 +210,31 @@ func (e *Exec) zeroInit(st *State, ref string, t types.Type) {
 }
 
 // mapLookup returns (value-or-zero, present).
+// mapTypeTag: maps whose keys / values have the same SMT sorts share their heaps; a map object has ONE Go
+// type, so two maps of different Go types are different objects. The fact is stated through an
+// uninterpreted tag (closed terms only: m may not mention a bound variable of a quantifier).
+func (e *Exec) mapTypeTag(m string, mt *types.Map) {
+	if e.inSpec > 0 || strings.Contains(m, "q!") || strings.Contains(m, "h!") {
+		return
+	}
+	if e.mapTypeIDs == nil {
+		e.mapTypeIDs = map[string]int{}
+		e.mapTagged = map[string]bool{}
+	}
+	ts := mt.String()
+	id, ok := e.mapTypeIDs[ts]
+	if !ok {
+		id = len(e.mapTypeIDs) + 1
+		e.mapTypeIDs[ts] = id
+	}
+	if e.mapTagged[m] {
+		return
+	}
+	e.mapTagged[m] = true
+	e.S.declareFun("$maptype", []string{"Int"}, "Int")
+	e.S.assume(fmt.Sprintf("(=> (not (= %s 0)) (= ($maptype %s) %d))", m, m, id))
+}
+
 func (e *Exec) mapLookup(st *State, m, k string, mt *types.Map) (Val, string) {
 	kty, vty := tyOfGo(mt.Key()), tyOfGo(mt.Elem())
 	e.ensureSortDecl(vty)
